@@ -20,6 +20,7 @@ def run(path: str) -> dict:
     spec = json.load(open(path))
     rt.SHARD.clear()
     rt.SHARD.update(spec.get('shard', {}))
+    rt.SHARD['_known'] = []          # a replay never suppresses anything
     rt.CONCRETE = True
     rt.TRACE.clear()
     rt.FINGERPRINT.clear()
